@@ -25,7 +25,7 @@ for _o in list(OBLIGATIONS[:3]):
 for _o in list(OBLIGATIONS[:3]):
     _s = dict(_o); _s["name"] = _o["name"].replace("_bytes", "_fields1"); _s["defs"] = [d for d in _o["defs"] if not d.startswith("NB=") and d != "GOOD_MAGIC"] + ["STRUCTURED", "CF_R=1", "CF_L=2"]
     _s["bounds"] = "code file of 1 record with unconstrained header fields (granularity/segment/CPU 0..255, length 0..2, kinds long/short/entry/$82/absent), truncated at any length"
-    _s["unwind"] = 10; _s["unwind_fn"] = {"harness": 10, "cf_load": 20, "cf_build": 8, "vp_vfprintf": 48}; _s["timeout"] = 900
+    _s["unwind"] = 10; _s["unwind_fn"] = {"harness": 10, "cf_load": 20, "cf_build": 8, "vp_vfprintf": 48}; _s["timeout"] = 2400; _s["mem_gb"] = 24
     OBLIGATIONS.append(_s)
 for _o in OBLIGATIONS:
     if _o["name"].endswith("_bytes") or _o["name"].endswith("_fields") or _o["name"].endswith("_fields1"): _o["tier"] = "experimental"     # do not finish inside the quick budget (see DESIGN.md)
